@@ -710,6 +710,7 @@ Definition step (s : st) (e : event) : st * ret * list attempt :=
   | ELAdd n => let '(c, r, _, w) := learner_add (s_reg s) (r_info (s_reg s)) n in (upd_reg s r, RL c, w)
   | ELLeader n => let '(c, r, _, w) := learner_leader (s_reg s) (r_info (s_reg s)) n in (upd_reg s r, RL c, w)
   | ELRemove n chk =>
+      if 1 <? r_mode (s_reg s) then (s, RL LErr, []) else      (* its own GetNamespacePartInfo fails *)
       let '(c, r, _, w) := learner_remove (s_lnodes s) (s_reg s) (r_info (s_reg s)) n chk in (upd_reg s r, RL c, w)
   | ELRemoveAll => let '(c, r, _, w) := learner_remove_all (s_reg s) (r_info (s_reg s)) in (upd_reg s r, RL c, w)
   | EReplica r =>
